@@ -223,6 +223,8 @@ def make_plan(seed: int, tier: str) -> dict:
         plan["bad"] = bad
     plan["design"] = dkind
     plan["vp"] = vp
+    if dkind == "random" and st.bernoulli(0.2):
+        plan["axis"] = "since_baseline"
     return plan
 
 
@@ -271,6 +273,10 @@ def run_plan(plan: dict) -> dict:
         kind = "logistic_diag_nosrc"
     try:
         settings = ac.handwritten_settings(Stream(plan["gseed"], "model"), kind, nf, source_dimension=ns)
+        if plan.get("axis") == "since_baseline":
+            # time counted from a baseline / diagnosis: reference times around 0, so many simulated ages are negative (no documented sign constraint)
+            settings["parameters"]["tau_mean"] = [round(settings["parameters"]["tau_mean"][0] - 70.0, 4)]
+            C["probe.time_axis_since_baseline"] += 1
         model = ac.load_from_settings(settings)
     except Exception as e:
         out["discarded"] = f"setup:{type(e).__name__}"
